@@ -1,4 +1,4 @@
-# C29: a rename placed in the top-level `renames` under the Einsum's own name is ignored
+# C29 regression: a rename placed in the top-level `renames` under the Einsum's own name was ignored before fix 9c6cc63 (now prints B / True)
 from accelforge.frontend.spec import Spec
 open("c29.yaml", "w").write("""
 arch:
